@@ -71,10 +71,13 @@ type MessageQueue struct {
 	doneOnce     sync.Once
 
 	// internal do not touch outside go routines
-	sender             gsnet.MessageSender
-	eventPublisher     notifications.Publisher
-	buildersLk         sync.RWMutex
-	builders           []*Builder
+	sender         gsnet.MessageSender
+	eventPublisher notifications.Publisher
+	buildersLk     sync.RWMutex
+	builders       []*Builder
+	// stopped is set, under buildersLk, once the run loop has exited after a
+	// shutdown: nothing will send or report builders queued from then on
+	stopped            bool
 	nextBuilderTopic   Topic
 	allocator          Allocator
 	maxRetries         int
@@ -103,7 +106,12 @@ func New(ctx context.Context, p peer.ID, network MessageNetwork, allocator Alloc
 func (mq *MessageQueue) AllocateAndBuildMessage(size uint64, buildMessageFn func(*Builder)) {
 	if size > 0 {
 		select {
-		case <-mq.allocator.AllocateBlockMemory(mq.p, size):
+		case err := <-mq.allocator.AllocateBlockMemory(mq.p, size):
+			if err != nil {
+				// the reservation was failed (the peer's memory was released by a
+				// queue shutdown): nothing is held for this data
+				size = 0
+			}
 		case <-mq.ctx.Done():
 			return
 		}
@@ -116,6 +124,10 @@ func (mq *MessageQueue) AllocateAndBuildMessage(size uint64, buildMessageFn func
 func (mq *MessageQueue) buildMessage(size uint64, buildMessageFn func(*Builder)) bool {
 	mq.buildersLk.Lock()
 	defer mq.buildersLk.Unlock()
+	if mq.stopped {
+		mq.failBuild(size, buildMessageFn)
+		return false
+	}
 	if shouldBeginNewResponse(mq.builders, size) {
 		topic := mq.nextBuilderTopic
 		mq.nextBuilderTopic++
@@ -136,6 +148,32 @@ func (mq *MessageQueue) buildMessage(size uint64, buildMessageFn func(*Builder))
 	}
 	builder.reserved += size
 	return true
+}
+
+// failBuild handles data that is queued after the run loop has exited (the
+// caller was waiting for memory, or already held this queue, while it shut
+// down): the data will never be sent, so it is reported as failed right away.
+// Must be called with buildersLk held.
+func (mq *MessageQueue) failBuild(size uint64, buildMessageFn func(*Builder)) {
+	topic := mq.nextBuilderTopic
+	mq.nextBuilderTopic++
+	builder := NewBuilder(mq.ctx, topic)
+	buildMessageFn(builder)
+	if size > 0 {
+		_ = mq.allocator.ReleaseBlockMemory(mq.p, size)
+	}
+	for _, responseStream := range builder.responseStreams {
+		_ = responseStream.Close()
+	}
+	event := Event{Name: Error, Err: errors.New("message queue shutdown"), Metadata: Metadata{BlockData: builder.blockData}}
+	subscribers := builder.subscribers
+	// subscribers call back into their managers, which may be the caller
+	go func() {
+		for _, subscriber := range subscribers {
+			subscriber.OnNext(topic, event)
+			subscriber.OnClose(topic)
+		}
+	}()
 }
 
 func shouldBeginNewResponse(builders []*Builder, blkSize uint64) bool {
@@ -194,6 +232,7 @@ func (mq *MessageQueue) runQueue() {
 			if mq.sender != nil {
 				mq.sender.Close()
 			}
+			mq.stop()
 			return
 		case <-mq.ctx.Done():
 			if mq.sender != nil {
@@ -201,6 +240,31 @@ func (mq *MessageQueue) runQueue() {
 			}
 			return
 		}
+	}
+}
+
+// stop marks the queue as stopped and fails whatever was queued since the
+// shutdown drain
+func (mq *MessageQueue) stop() {
+	mq.buildersLk.Lock()
+	mq.stopped = true
+	mq.buildersLk.Unlock()
+	for {
+		_, metadata, err := mq.extractOutgoingMessage()
+		if err == errEmptyMessage {
+			mq.buildersLk.RLock()
+			remaining := len(mq.builders)
+			mq.buildersLk.RUnlock()
+			if remaining == 0 {
+				return
+			}
+			continue
+		}
+		if err != nil {
+			continue
+		}
+		mq.publishError(metadata, errors.New("message queue shutdown"))
+		mq.eventPublisher.Close(metadata.topic)
 	}
 }
 
